@@ -672,6 +672,7 @@ func (c *Client) Do(ctx context.Context, q Query) (err error) {
 	done := make(chan struct{})
 	var (
 		gotException atomic.Bool
+		recvFailed   atomic.Bool
 		colInfo      chan proto.ColInfoInput
 	)
 	if q.Result == nil && len(q.Input) > 0 {
@@ -721,9 +722,18 @@ func (c *Client) Do(ctx context.Context, q Query) (err error) {
 		}
 		return nil
 	})
-	g.Go(func() error {
+	g.Go(func() (rerr error) {
 		// Receiving query result, data and telemetry.
 		defer close(done)
+		defer func() {
+			// Publish the failure before done is closed: errgroup cancels ctx
+			// only after this function has returned, so the goroutine below
+			// could otherwise observe a live context and leave the connection
+			// open in the middle of the server stream.
+			if rerr != nil {
+				recvFailed.Store(true)
+			}
+		}()
 		if colInfo != nil {
 			defer close(colInfo)
 		}
@@ -765,7 +775,7 @@ func (c *Client) Do(ctx context.Context, q Query) (err error) {
 	g.Go(func() error {
 		<-done
 		// Handling query cancellation if needed.
-		if ctx.Err() != nil && !gotException.Load() {
+		if (ctx.Err() != nil || recvFailed.Load()) && !gotException.Load() {
 			err := multierr.Append(ctx.Err(), c.cancelQuery())
 			return errors.Wrap(err, "canceled")
 		}
